@@ -116,6 +116,22 @@ theorem info_changedOf (env : Env) (s s' : State E) (hc : causeOf s' = causeOf s
   rw [hcfg, hP, hb, he, cycle_not_handler_reason _ _ s'.now s'.now env.exec hr,
     cycle_not_handler_reason _ _ s.now s.now env.exec hr]
 
+/-- the cause FREE: marked for deletion and not held by the own finalizer -/
+theorem free_iff (s : State E) : (causeOf s).reason = .free ↔ (s.marked = true ∧ s.blocked = false) := by
+  unfold causeOf C05.detect C05.detectReason
+  cases hm : s.marked <;> cases hb : s.blocked <;> simp
+  all_goals (repeat' split) <;> simp
+
+theorem unmarked_not_free (s : State E) (hm : s.marked = false) : (causeOf s).reason ≠ .free := by
+  intro h
+  have := ((free_iff s).1 h).1
+  rw [hm] at this; cases this
+
+theorem blocked_not_free (s : State E) (hb : s.blocked = true) : (causeOf s).reason ≠ .free := by
+  intro h
+  have := ((free_iff s).1 h).2
+  rw [hb] at this; cases this
+
 /-- a later clock and another finalizer state do not enlarge the handling bound of an unmarked object -/
 theorem core_adjusted (env : Env) (s s' : State E) (hP : s'.P = s.P) (hb : s'.base = s.base)
     (he : s'.ess = s.ess) (h3 : s'.noticed = s.noticed) (h4 : s'.fullyHandled = s.fullyHandled)
@@ -126,56 +142,41 @@ theorem core_adjusted (env : Env) (s s' : State E) (hP : s'.P = s.P) (hb : s'.ba
   have hsel := selOf_congr env s s' hc hR
   have hcfg : cfgOf env s' = cfgOf env s := by unfold cfgOf; rw [hc, hsel]
   have hih : isHandler s' = isHandler s := by unfold isHandler; rw [hc]
-  unfold core
-  rw [hih]
   by_cases hpm : env.prematch = true
-  · by_cases hh : isHandler s = true
-    · simp only [hpm, hh, Bool.not_true, Bool.false_eq_true, if_false]
+  · rw [core_handling env s hpm (unmarked_not_free s hm), core_handling env s' hpm (unmarked_not_free s' hm'), hih]
+    by_cases hh : isHandler s = true
+    · simp only [hh, Bool.not_true, Bool.false_eq_true, if_false]
       rw [extrasOf_eq, extrasOf_eq, hcfg, hsel, hP, extras_now_indep (cfgOf env s) s.P s'.now s.now]
       have h1 := Av_mono (selOf env s) s.P hn
       have h2 := Cv_mono env.cap (selOf env s) s.P hn
       omega
     · have hh' : isHandler s = false := by simpa using hh
-      simp only [hpm, hh', Bool.not_true, Bool.false_eq_true, if_false, Bool.not_false, if_true]
+      simp only [hh', Bool.not_false, if_true]
       rw [info_changedOf env s s' hc hP hb he hR hh']
       exact Nat.le_refl _
-  · simp [hpm]
+  · have hpm' : env.prematch = false := by simpa using hpm
+    rw [core_purging env s (Or.inl hpm'), core_purging env s' (Or.inl hpm'), leftovers_congr env s s' hP]
+    exact Nat.le_refl _
 
 theorem core_pos (env : Env) (s : State E) : 1 ≤ core env s := by
   unfold core
   split
-  · exact Nat.le_refl _
+  · split <;> omega
   · split
     · split <;> omega
     · omega
 
 theorem core_ge_two (env : Env) (s : State E) (hpm : env.prematch = true) (hh : isHandler s = true) :
     2 ≤ core env s := by
-  unfold core
-  simp only [hpm, hh, Bool.not_true, Bool.false_eq_true, if_false]
+  rw [core_handling env s hpm (handler_not_free s hh)]
+  simp only [hh, Bool.not_true, Bool.false_eq_true, if_false]
   have := two_U_add_A_pos (selOf env s) s.P s.now
   omega
 
-/-- a marked object without the own finalizer: the cause is FREE, nothing is done -/
+/-- a marked object without the own finalizer: the cause is FREE; no handlers, the leftover records are purged -/
 theorem core_free (env : Env) (s : State E) (hm : s.marked = true) (hb : s.blocked = false) :
-    core env s = 1 := by
-  have hreason : (causeOf s).reason = .free := by
-    unfold causeOf C05.detect C05.detectReason; simp [hm, hb]
-  have hh : isHandler s = false := by
-    unfold isHandler; rw [hreason]; decide
-  have hr : handlerReasons.contains (cfgOf env s).reason = false := hh
-  have hnn : ((cfgOf env s).reason == "noop") = false := by
-    show (C14.reasonStr (causeOf s).reason == "noop") = false
-    rw [hreason]; decide
-  have hch : changedOf env s = false := by
-    have hk := cycle_not_handler_reason_keeps (cfgOf env s) s.P s.now s.now env.exec hr hnn
-    have hc := (cycle_not_handler_reason_invoked (cfgOf env s) s.P s.now s.now env.exec hr).2
-    unfold changedOf pass
-    rw [hk, hc]
-    simp
-  unfold core
-  rw [hh, hch]
-  split <;> rfl
+    core env s = if leftovers env s then 2 else 1 :=
+  core_purging env s (Or.inr ((free_iff s).2 ⟨hm, hb⟩))
 
 theorem bound_eq_hbound (env : Env) (s : State E) (hg : s.gone = false) (ha : adjusting env s = false) :
     bound env s = hbound env s := by
@@ -198,9 +199,76 @@ theorem handler_marked_blocked (s : State E) (hh : isHandler s = true) (hm : s.m
 def addState (env : Env) (s : State E) : State E :=
   { s with blocked := true, now := s.now + latS env, pending := true, writes := s.writes + cp env + 1 }
 
-/-- the state after the turn that removes the unneeded finalizer -/
-def remState (env : Env) (s : State E) (g : Bool) : State E :=
-  { s with blocked := false, gone := g, now := s.now + latS env, pending := !g, writes := s.writes + cp env + 1 }
+/-- a release turn ran a pass that closed the cycle: every owned record is purged by it -/
+theorem release_purges (env : Env) (s : State E) (hrun : (decisionOf env s).handlersRun = true)
+    (hrel : (decisionOf env s).release = true) :
+    s.marked = true ∧ s.blocked = true ∧ isHandler s = true ∧ (pass env s).closed = true ∧
+    ∀ i ∈ env.owned, (pass env s).P' i = none := by
+  have h := hrel
+  rw [dec_rel, hrun] at h
+  simp only [Bool.and_eq_true, Bool.not_eq_true', Bool.true_and, Bool.not_eq_false'] at h
+  obtain ⟨⟨hmk, hbl⟩, _⟩ := h
+  have hh : isHandler s = true := by
+    unfold isHandler causeOf C05.detect C05.detectReason
+    simp [hmk, hbl, C14.reasonStr]
+    decide
+  have hr : handlerReasons.contains (cfgOf env s).reason = true := hh
+  have hcl : (pass env s).closed = true := by
+    cases hc : (pass env s).closed
+    · exfalso
+      have hne : (cfgOf env s).selected.isEmpty = false := by
+        cases he : (cfgOf env s).selected.isEmpty
+        · rfl
+        · exfalso
+          have := cycle_no_handlers (cfgOf env s) s.P s.now s.now env.exec hr he
+          unfold pass at hc
+          rw [this] at hc
+          cases hc
+      have hd : (pass env s).delays ≠ [] := by
+        unfold pass at hc ⊢
+        rw [cycle_main _ _ _ _ _ hr hne] at hc ⊢
+        exact delays_ne_nil _ _ _ hc
+      have hrel2 := hrel
+      rw [dec_rel, hrun] at hrel2
+      cases hdl : (pass env s).delays with
+      | nil => exact hd hdl
+      | cons a as => simp [hdl] at hrel2
+    · rfl
+  refine ⟨hmk, hbl, hh, hcl, ?_⟩
+  cases he : (cfgOf env s).selected.isEmpty
+  · exact closed_purges (cfgOf env s) s.P s.now s.now env.exec hr he hcl
+  · exact (closed_purges_skip (cfgOf env s) s.P s.now s.now env.exec hr he).2
+
+theorem adjusting_congr (env : Env) (s s' : State E) (hb : s'.blocked = s.blocked) (hm : s'.marked = s.marked) :
+    adjusting env s' = adjusting env s := by
+  rw [adjusting_eq, adjusting_eq, hb, hm]
+
+/-- the turn without handlers (blind, or FREE) strictly decreases the bound -/
+theorem purge_decreases (env : Env) (s : State E) (hp : s.pending = true) (hg : s.gone = false)
+    (ha : adjusting env s = false) (hpur : env.prematch = false ∨ (causeOf s).reason = .free) :
+    bound env (purgeTurn env s) < bound env s := by
+  have hbs : bound env s = if leftovers env s then 2 else 1 := by
+    unfold bound; rw [core_purging env s hpur]; simp [hp, hg, ha]
+  rw [hbs]
+  rcases purgeTurn_cases env s with ⟨hl, h⟩ | ⟨hl, h⟩
+  · have hl' := purgeTurn_norec_next env s
+    have hpur' : env.prematch = false ∨ (causeOf (purgeTurn env s)).reason = .free := by
+      rcases hpur with h1 | h1
+      · exact Or.inl h1
+      · right
+        have := (free_iff s).1 h1
+        rw [h]
+        exact (free_iff _).2 this
+    have ha' : adjusting env (purgeTurn env s) = false := by
+      rw [h]; exact (adjusting_congr env s _ rfl rfl).trans ha
+    have hg' : (purgeTurn env s).gone = false := by rw [h]; exact hg
+    unfold bound
+    rw [ha', core_purging env _ hpur', hl', hg', hl]
+    simp
+    split <;> omega
+  · rw [h, hl]
+    unfold bound
+    simp
 
 /-- RANKING. Every turn of the loop that consumes an event and whose pass asks for no retry strictly
     decreases the bound. -/
@@ -242,7 +310,7 @@ theorem step_decreases (env : Env) (wf : WF env) (s : State E)
     simp only [Bool.and_eq_true, Bool.not_eq_true'] at h
     obtain ⟨hmust, hbl⟩ := h
     have hst : loopStep env s = remState env s (s.marked && !env.foreignFins) := by
-      unfold loopStep remState; simp [hp, hg', hadd', hrem]
+      unfold loopStep; simp [hp, hg', hadd', hrem]
     have hadj : adjusting env s = true := by unfold adjusting; simp [hrem]
     have hcp := core_pos env s
     rw [hst, hbs, hadj]
@@ -256,10 +324,34 @@ theorem step_decreases (env : Env) (wf : WF env) (s : State E)
         unfold bound; rw [hgR, hadj', hpR]; simp
       rw [hbR]
       simp only [if_true]
-      cases hmk : s.marked
-      · have hcore := core_adjusted env s (remState env s false) rfl rfl rfl rfl rfl rfl hmk hmk hlat
-        omega
-      · have := core_free env (remState env s false) hmk rfl
+      by_cases hpm : env.prematch = true
+      · -- the framework sees the object: records as they were
+        have hPR : (remState env s false).P = s.P := by simp [remState, hpm]
+        have hnR : s.now ≤ (remState env s false).now := by simp [remState, hpm]; exact hlat
+        cases hmk : s.marked
+        · have hcore := core_adjusted env s (remState env s false) hPR rfl rfl rfl rfl rfl hmk hmk hnR
+          omega
+        · -- marked and held: the cause was DELETE; afterwards FREE
+          have hh : isHandler s = true := by
+            unfold isHandler causeOf C05.detect C05.detectReason
+            simp [hmk, hbl, C14.reasonStr]
+            decide
+          have h2 := core_ge_two env s hpm hh
+          have := core_free env (remState env s false) hmk rfl
+          rw [this]
+          split <;> omega
+      · -- blind: the leftovers went out with the finalizer
+        have hpm' : env.prematch = false := by simpa using hpm
+        have hl : leftovers env (remState env s false) = false := by
+          cases hlo : leftovers env s
+          · have hPR : (remState env s false).P = s.P := by simp [remState, hlo]
+            exact (leftovers_congr env s _ hPR).trans hlo
+          · apply leftovers_false_of_norec
+            intro i hi
+            simp only [remState, hpm', hlo, Bool.not_false, Bool.and_self, if_true]
+            exact purged_owned env s hi
+        rw [core_purging env _ (Or.inl hpm'), hl]
+        simp only [Bool.false_eq_true, if_false]
         omega
     · have hpR : (remState env s true).pending = false := rfl
       have hbR : bound env (remState env s true) = 0 := by unfold bound; rw [hpR]; simp
@@ -271,25 +363,18 @@ theorem step_decreases (env : Env) (wf : WF env) (s : State E)
   have hrun : (decisionOf env s).handlersRun = env.prematch := by rw [dec_run]; simp [hadd', hrem']
   by_cases hpm : env.prematch = true
   rotate_left
-  · -- blind: nothing is done
+  · -- blind: no handlers; leftover records are purged
     have hpm' : env.prematch = false := by simpa using hpm
-    have hst : loopStep env s = { s with pending := false, writes := s.writes + cp env } := by
+    have hst : loopStep env s = purgeTurn env s := by
       unfold loopStep; simp [hp, hg', hadd', hrem', hrun, hpm']
-    have := core_pos env s
-    rw [hst, hbs, hadj]; unfold bound; simp; omega
+    rw [hst]
+    exact purge_decreases env s hp hg' hadj (Or.inl hpm')
   rw [hpm] at hrun
   by_cases hrel : (decisionOf env s).release = true
   · -- the closing pass of a deletion: the own finalizer goes with it
-    have h := hrel
-    rw [dec_rel, hrun] at h
-    simp only [Bool.and_eq_true, Bool.not_eq_true', Bool.true_and, Bool.not_eq_false'] at h
-    obtain ⟨⟨hmk, hbl⟩, _⟩ := h
+    obtain ⟨hmk, hbl, hh, hcl, hnone⟩ := release_purges env s hrun hrel
     have hst : loopStep env s = releaseTurn env s := by
       unfold loopStep; simp [hp, hg', hadd', hrem', hrun, hrel]
-    have hh : isHandler s = true := by
-      unfold isHandler causeOf C05.detect C05.detectReason
-      simp [hmk, hbl, C14.reasonStr]
-      decide
     have h2 := core_ge_two env s hpm hh
     rw [hst, hbs, hadj]
     cases hff : env.foreignFins
@@ -298,16 +383,25 @@ theorem step_decreases (env : Env) (wf : WF env) (s : State E)
       omega
     · have hadj' : adjusting env (releaseTurn env s) = false := by
         rw [adjusting_eq]; simp [releaseTurn, nextState, hmk]
-      have hfree : core env (releaseTurn env s) = 1 :=
-        core_free env (releaseTurn env s) (by simp [releaseTurn, nextState, hmk]) (by simp [releaseTurn, nextState])
+      have hl : leftovers env (releaseTurn env s) = false :=
+        leftovers_false_of_norec env _ (fun i hi => hnone i hi)
+      have hfree : core env (releaseTurn env s) = 1 := by
+        rw [core_free env (releaseTurn env s) (by simp [releaseTurn, nextState, hmk]) (by simp [releaseTurn, nextState]), hl]
+        rfl
       unfold bound
       rw [hadj', hfree]
       simp [releaseTurn, nextState, hff]
       omega
   have hrel' : (decisionOf env s).release = false := by simpa using hrel
+  by_cases hfr : (causeOf s).reason = .free
+  · -- FREE: no handlers; leftover records are purged
+    have hst : loopStep env s = purgeTurn env s := by
+      unfold loopStep; simp [hp, hg', hadd', hrem', hrun, hrel', hfr]
+    rw [hst]
+    exact purge_decreases env s hp hg' hadj (Or.inr hfr)
   -- the handling pass
   have hst : loopStep env s = handleTurn env s := by
-    unfold loopStep; simp [hp, hg', hadd', hrem', hrun, hrel']
+    unfold loopStep; simp [hp, hg', hadd', hrem', hrun, hrel', hfr]
   have hcm : (pass env s).closed = true → s.marked = false := by
     intro hc
     cases hmk : s.marked
@@ -328,7 +422,7 @@ theorem step_decreases (env : Env) (wf : WF env) (s : State E)
       rw [this] at hrel'; cases hrel'
   have hnow : handlesNow env s = true := by
     unfold handlesNow; simp [hp, hg', hadd', hrem', hrun, hrel']
-  have hdec := handle_decreases env wf s (hfin hnow) hu hp hpm hcm
+  have hdec := handle_decreases env wf s (hfin hnow) hu hp hpm hfr hcm
   have hadjN : adjusting env (handleTurn env s) = false := by
     rw [adjusting_eq]
     have hbk : (handleTurn env s).blocked = s.blocked ∧ (handleTurn env s).marked = s.marked := by
@@ -341,18 +435,20 @@ theorem step_decreases (env : Env) (wf : WF env) (s : State E)
   exact hdec
 
 
-/-- Which of the five kinds of turn the loop takes from a state with a pending event. -/
+/-- Which of the six kinds of turn the loop takes from a state with a pending event. -/
 theorem turn_cases (env : Env) (s : State E) (hp : s.pending = true) (hg : s.gone = false) :
     ((decisionOf env s).add = true ∧ s.marked = false ∧ s.blocked = false ∧ env.prematch = true ∧
         loopStep env s = addState env s) ∨
     ((decisionOf env s).removeUnneeded = true ∧ s.blocked = true ∧
         loopStep env s = remState env s (s.marked && !env.foreignFins)) ∨
-    (adjusting env s = false ∧ env.prematch = false ∧
-        loopStep env s = { s with pending := false, writes := s.writes + cp env }) ∨
+    (adjusting env s = false ∧ env.prematch = false ∧ loopStep env s = purgeTurn env s) ∨
     (adjusting env s = false ∧ env.prematch = true ∧ s.marked = true ∧ s.blocked = true ∧
         (decisionOf env s).release = true ∧ loopStep env s = releaseTurn env s) ∨
+    (adjusting env s = false ∧ env.prematch = true ∧ s.marked = true ∧ s.blocked = false ∧
+        loopStep env s = purgeTurn env s) ∨
     (adjusting env s = false ∧ env.prematch = true ∧ (decisionOf env s).release = false ∧
-        ((pass env s).closed = true → s.marked = false) ∧ loopStep env s = handleTurn env s) := by
+        ((pass env s).closed = true → s.marked = false) ∧ (causeOf s).reason ≠ .free ∧
+        loopStep env s = handleTurn env s) := by
   by_cases hadd : (decisionOf env s).add = true
   · left
     have h := hadd
@@ -366,7 +462,7 @@ theorem turn_cases (env : Env) (s : State E) (hp : s.pending = true) (hg : s.gon
     have h := hrem
     rw [dec_rem] at h
     simp only [Bool.and_eq_true, Bool.not_eq_true'] at h
-    exact ⟨hrem, h.2, by unfold loopStep remState; simp [hp, hg, hadd', hrem]⟩
+    exact ⟨hrem, h.2, by unfold loopStep; simp [hp, hg, hadd', hrem]⟩
   have hrem' : (decisionOf env s).removeUnneeded = false := by simpa using hrem
   have hadj : adjusting env s = false := by unfold adjusting; simp [hadd', hrem']
   have hrun : (decisionOf env s).handlersRun = env.prematch := by rw [dec_run]; simp [hadd', hrem']
@@ -383,8 +479,12 @@ theorem turn_cases (env : Env) (s : State E) (hp : s.pending = true) (hg : s.gon
     simp only [Bool.and_eq_true, Bool.not_eq_true', Bool.true_and, Bool.not_eq_false'] at h
     exact ⟨hadj, hpm, h.1.1, h.1.2, hrel, by unfold loopStep; simp [hp, hg, hadd', hrem', hrun, hrel]⟩
   have hrel' : (decisionOf env s).release = false := by simpa using hrel
-  right; right; right; right
-  refine ⟨hadj, hpm, hrel', ?_, by unfold loopStep; simp [hp, hg, hadd', hrem', hrun, hrel']⟩
+  by_cases hfr : (causeOf s).reason = .free
+  · right; right; right; right; left
+    obtain ⟨hmk, hbl⟩ := (free_iff s).1 hfr
+    exact ⟨hadj, hpm, hmk, hbl, by unfold loopStep; simp [hp, hg, hadd', hrem', hrun, hrel', hfr]⟩
+  right; right; right; right; right
+  refine ⟨hadj, hpm, hrel', ?_, hfr, by unfold loopStep; simp [hp, hg, hadd', hrem', hrun, hrel', hfr]⟩
   intro hc
   cases hmk : s.marked
   · rfl
